@@ -14,7 +14,10 @@
 (*         read for (redundancy, celt_to_silk) in EVERY frame is what the    *)
 (*         encoder decided, as inferred from its peeks by EncMode!EncHandshake*)
 (*    C11  the low-delay application and frames under 10 ms use the MDCT     *)
-(*         layer only (on packets that code audio)                           *)
+(*         layer only; a forced channel count is in effect from the third    *)
+(*         audio packet after it was set (at once when set before the first  *)
+(*         call) - all on packets that code audio.  tg = [started, age] is   *)
+(*         EncCtl's ghost for that clause                                    *)
 (*  drift  conformance to the machine (SPEC-DRIFT): the state before the     *)
 (*         call is the model's; the call is the TOC-only path exactly when   *)
 (*         the budget arithmetic says so and then reuses mode / bandwidth /  *)
@@ -31,9 +34,9 @@
 (* guard, printed at the end as "SEEN ...").                                 *)
 (***************************************************************************)
 EXTENDS EncMode, Json, IOUtils, TLC
-VARIABLES tl, tc, tm, td, ts
+VARIABLES tl, tc, tm, td, ts, tg
 
-tvars == <<tl, tc, tm, td, ts>>
+tvars == <<tl, tc, tm, td, ts, tg>>
 Tr == ndJsonDeserialize(IOEnv.TRACE)
 NEv == Len(Tr)
 
@@ -69,7 +72,7 @@ MachineAccepts(pre, post, S, I, e, nf) ==
 
 -----------------------------------------------------------------------------
 (* Judging one encode event.  Returns [prop, drift, m, d, tags].            *)
-JudgeEnc(c, e, m, d) ==
+JudgeEnc(c, e, m, d, g) ==
   LET S    == SOfEv(c, e)
       pre  == PeekM(e.pre, c.Fs)
       post == PeekM(e.post, c.Fs)
@@ -82,7 +85,7 @@ JudgeEnc(c, e, m, d) ==
   IF e.r <= 0
   THEN [prop  |-> Names({<<"C02.EncodeSucceeds", e.r = BUFFER_TOO_SMALL /\ e.mx = 1 /\ e.q = 40>>}),
         drift |-> Names({<<"PreIsModel", pre = m>>, <<"RefusalWritesNothing", post = pre>>}),
-        m |-> post, d |-> d, tags |-> {"refused"}]
+        m |-> post, d |-> d, tags |-> {"refused"}, audio |-> FALSE]
   ELSE
   LET nf    == e.nf
       tmode == TocMode(e.toc)
@@ -104,7 +107,8 @@ JudgeEnc(c, e, m, d) ==
          <<"C02.FinalRange", nf >= 1 /\ e.rngE = e.d1r /\ e.rngE = e.d2r>>,
          <<"C02.Handshake", nf >= 1 /\ \A i \in 1..nf : DecSaw(e.d2[i]) \in EncHandshake(pre, post, tmode, i, nf, e.sz[i])>>,
          <<"C11.LowDelayIsCelt", (audio /\ c.app = APP_LOWDELAY) => tmode = MODE_CELT>>,
-         <<"C11.ShortFramesAreCelt", (audio /\ e.q < 4) => tmode = MODE_CELT>> })
+         <<"C11.ShortFramesAreCelt", (audio /\ e.q < 4) => tmode = MODE_CELT>>,
+         <<"C11.ForceTakesEffect", (audio /\ c.ch = 2 /\ e.fc # OPUS_AUTO /\ g.age >= 2) => TocChannels(e.toc) = e.fc>> })
       tocOK == IF low
                THEN /\ tmode = lp.mode /\ TocBandwidth(e.toc) = lp.bw /\ TocChannels(e.toc) = lp.ch
                     /\ nf = lp.nf /\ Dur48(e.toc) = 120 * lp.fq /\ (e.vbr = 1 => e.code = lp.code)     \* CBR: padded, hence code 3
@@ -152,10 +156,13 @@ JudgeEnc(c, e, m, d) ==
          \cup (IF nf >= 1 /\ \E i \in 1..nf : e.d2[i][4] = 1 THEN {"decTransition"} ELSE {})
          \cup (IF ~low /\ pre.prevMode # 0 /\ pre.sch = 2 /\ post.sch = 1 /\ tmode = MODE_CELT THEN {"monoInCelt"} ELSE {})
   IN [prop |-> prop, drift |-> drift, m |-> post,
-      d |-> IF nf >= 1 THEN [prev |-> lastd[5], pred |-> B(lastd[6])] ELSE d, tags |-> tags]
+      d |-> IF nf >= 1 THEN [prev |-> lastd[5], pred |-> B(lastd[6])] ELSE d,
+      tags |-> tags \cup (IF audio /\ c.ch = 2 /\ e.fc # OPUS_AUTO /\ g.age >= 2 THEN {"forcedChannelsBind"} ELSE {}),
+      audio |-> audio]
 
 -----------------------------------------------------------------------------
-Init == /\ tl = 1 /\ tc = [Fs |-> 48000, ch |-> 1, app |-> APP_AUDIO] /\ tm = MInit(1) /\ td = DInit /\ ts = {}
+G0 == [started |-> FALSE, age |-> 2]
+Init == /\ tl = 1 /\ tc = [Fs |-> 48000, ch |-> 1, app |-> APP_AUDIO] /\ tm = MInit(1) /\ td = DInit /\ ts = {} /\ tg = G0
 
 Report(kind, names) == PrintT("REJ " \o ToString(<<tl, kind, names>>))
 Finish(s) == IF tl = NEv THEN PrintT("SEEN " \o ToString(s)) ELSE TRUE
@@ -165,22 +172,26 @@ Step ==
   /\ LET e == Tr[tl] IN
      CASE e.k = "new" ->
             LET c == [Fs |-> e.Fs, ch |-> e.ch, app |-> e.app] IN
-            /\ tc' = c /\ tm' = PeekM(e.st, e.Fs) /\ td' = DInit
+            /\ tc' = c /\ tm' = PeekM(e.st, e.Fs) /\ td' = DInit /\ tg' = G0
             /\ (IF PeekM(e.st, e.Fs) # MInit(e.ch) THEN Report("drift", {"InitialState"}) ELSE TRUE)
             /\ ts' = ts \cup {"new"} /\ Finish(ts')
        [] e.k = "ctl" ->
             LET st == PeekM(e.st, tc.Fs)
                 exp == IF e.rq = "rs" /\ e.r = OK THEN MReset(tm, tc.ch) ELSE tm IN
             /\ tm' = st /\ UNCHANGED <<tc, td>>
+            \* EncCtl!EncGhostAfterSet / EncReset: a forced channel count set after the first call starts counting afresh
+            /\ tg' = IF e.rq = "rs" /\ e.r = OK THEN G0
+                     ELSE IF e.rq = "fc" /\ e.r = OK /\ tg.started THEN [tg EXCEPT !.age = 0] ELSE tg
             /\ (IF st # exp THEN Report("drift", {IF e.rq = "rs" THEN "ResetIsMReset" ELSE "CtlLeavesMachineAlone"}) ELSE TRUE)
             /\ ts' = ts \cup (IF e.rq = "rs" THEN {"reset"} ELSE {}) /\ Finish(ts')
        [] e.k = "enc" ->
-            \E v \in {JudgeEnc(tc, e, tm, td)} :
+            \E v \in {JudgeEnc(tc, e, tm, td, tg)} :
               /\ tm' = v.m /\ td' = v.d /\ UNCHANGED tc
+              /\ tg' = [started |-> TRUE, age |-> IF v.audio THEN Min(2, tg.age + 1) ELSE tg.age]
               /\ (IF v.prop # {} THEN Report("prop", v.prop) ELSE TRUE)
               /\ (IF v.drift # {} THEN Report("drift", v.drift) ELSE TRUE)
               /\ ts' = ts \cup v.tags /\ Finish(ts')
-       [] OTHER -> UNCHANGED <<tc, tm, td, ts>> /\ Finish(ts)
+       [] OTHER -> UNCHANGED <<tc, tm, td, ts, tg>> /\ Finish(ts)
   /\ tl' = tl + 1
 
 Spec == Init /\ [][Step]_tvars
